@@ -126,10 +126,13 @@ func (vars *Vars) Merge(other *Vars, include *Include) {
 	defer other.mutex.RUnlock()
 	other.mutex.RLock()
 	for pair := other.om.Front(); pair != nil; pair = pair.Next() {
+		// Set the directory on the merged copy only: the other variables belong
+		// to a Taskfile that may be included by several parents
+		value := pair.Value
 		if include != nil && include.AdvancedImport {
-			pair.Value.Dir = include.Dir
+			value.Dir = include.Dir
 		}
-		vars.om.Set(pair.Key, pair.Value)
+		vars.om.Set(pair.Key, value)
 	}
 }
 
